@@ -26,19 +26,26 @@ META = {
     "property_id": PID,
     "level": "fault_enumeration",
     "technique": "TLA+ specification (SQLTables + Trace_Faults: StmtWithFault(stmt, k) allows exactly 'error and UNCHANGED' when the fault fired, the normal Outcomes otherwise) evaluated by TLC on every recorded run of an exhaustive enumeration of storage-fault positions (the k-th row-edit call of the in-memory table editor, k = 1..N, each on a fresh copy of the state) plus natural failures placed at every row position; bounded row-level model MC_Faults model-checked (FailedStmtNoEffectF, StepsRefineStatement)",
-    "text": "A data-modifying statement that fails — duplicate key, NOT NULL, CHECK at any row of a multi-row statement, or a storage error injected at any row-edit call — leaves every table exactly as before (rows as bags and all index lookups); a statement that succeeds has the table contents of a successful outcome of the specification.",
-    "note": "Storage faults are injected at the entry of memory.tableEditor.Insert/Update/Delete (hook verifhook.EditFaultFn); faults inside StatementComplete/ApplyEdits are not injected (stage 2, not built). Conversion errors and trigger errors are covered by C27 / C23. IGNORE statements keep the rows before the fault (recorded finding).",
+    "text": "A data-modifying statement that fails — duplicate key, NOT NULL, CHECK at any row of a multi-row statement, a failure of the statement's row source at any source row (BEFORE trigger SIGNAL, run-time error of INSERT .. SELECT), or a storage error injected at any row-edit call — leaves every table exactly as before (rows as bags and all index lookups); a statement that succeeds has the table contents of a successful outcome of the specification.",
+    "note": "Row-source failures (BEFORE trigger SIGNAL, run-time error of INSERT .. SELECT at source row k) are generated through the real mechanisms. Storage faults are injected at the entry of memory.tableEditor.Insert/Update/Delete (hook verifhook.EditFaultFn); faults inside StatementComplete/ApplyEdits are not injected (stage 2, not built). Conversion errors and trigger errors are covered by C27 / C23. IGNORE statements keep the rows before the fault (recorded finding).",
 }
 
 RULE = ("steered dmlgen histories (8-16 statements; single/composite/no primary key, unique and plain secondary indexes, NOT NULL, CHECK) plus placed "
         "families with the natural failure (duplicate / NOT NULL / colliding UPDATE) at every row position j of m; for every statement the fault "
         "positions k = 1..N (N = row-edit calls of the unfaulted run, all of them up to 12, evenly sampled beyond) each on a fresh copy of the state. "
+        "Row-source failures: at random points of a history a family of non-IGNORE INSERT / REPLACE statements of m fresh rows whose ROW SOURCE fails at source row k = 1..m "
+        "(BEFORE INSERT trigger SIGNAL on the k-th VALUES row; INSERT / REPLACE .. SELECT .. ORDER BY with a BIGINT overflow on the k-th row), in autocommit mode and inside "
+        "START TRANSACTION .. COMMIT, each on a fresh copy of the state, with index probes afterwards. "
         "The same enumeration runs over foreign-key histories (cascades) and trigger histories (audit table), judged by 'a failed statement changes no table'. "
         "A case = one run (statement, fault position). Non-trivial = the injected fault fired, or the statement failed naturally.")
 
 
 def signature(m, ev):
     k = "k=0" if ev["k"] == 0 else ("k=first" if ev["k"] == 1 else "k=later")
+    if ev["ev"] == "sfault":
+        # row-source failure: tags = mechanism (signal | select), statement (insert | replace), mode (autocommit | txn)
+        r = ev["reply"]
+        return "C15|sfault|%s|got=%s|%s|%s" % ("+".join(m["what"]), r["kind"] + (":" + r["class"] if r.get("class") else ""), k, ",".join(ev.get("tags", [])))
     r = ev["reply"]
     got = r["kind"] + (":" + r["class"] if r.get("class") else "")
     # statement-shape tags only (the table-shape tags start with keyless / pk1 / pkN)
@@ -51,7 +58,7 @@ def signature(m, ev):
 
 
 def key(m, ev):
-    return (ev["id"], ev["ev"], ev["k"], tuple(m["what"]))
+    return (ev["id"], ev["ev"], ev["k"], tuple(m["what"]), tuple(ev.get("tags", [])) if ev["ev"] == "sfault" else ())
 
 
 def detail(m, ev):
@@ -107,7 +114,10 @@ def check(tier):
                       "natural duplicate failures": (nat.get("dup", 0), 10), "natural NOT NULL failures": (nat.get("notnull", 0), 3),
                       "natural failures after at least one row edit": (sum(n for k, n in pos.items() if not k.endswith("@edit0") and not k.endswith("@edit1")), 5),
                       "index probes through an index": (ex.get("probes_via_index", 0), 200),
-                      "fault runs over cascades / trigger targets": (xex.get("x_fault_runs_reaching_other_tables", 0), 15)}
+                      "fault runs over cascades / trigger targets": (xex.get("x_fault_runs_reaching_other_tables", 0), 15),
+                      "row-source failures": (ex.get("source_fault_runs", 0), 60),
+                      "row-source failures at a later source row": (ex.get("source_fault_runs_later_row", 0), 30),
+                      "row-source failures inside a transaction": (ex.get("source_fault_runs_in_txn", 0), 15)}
             for what, (got, floor) in floors.items():
                 if got < floor and not v.violations:      # (a reproduced disagreement is a verdict even in a thin run)
                     raise lib.Inconclusive("vacuous run: %s = %d < %d" % (what, got, floor))
@@ -137,7 +147,9 @@ def check(tier):
                    "exhaustive": ex.get("statements_with_sampled_positions", 0) == 0,
                    "histories": nh, "fault_runs": ex.get("fault_runs"), "faults_fired": ex.get("faults_fired"),
                    "max_row_edit_calls_of_a_statement": ex.get("max_calls"), "statements_with_sampled_positions": ex.get("statements_with_sampled_positions"),
-                   "natural_failures": nat, "natural_failure_positions": pos, "reply_kinds": ex.get("reply_kinds"),
+                   "natural_failures": nat, "natural_failure_positions": pos,
+                   "source_fault_runs": ex.get("source_fault_runs"), "source_fault_mechanisms": ex.get("source_fault_kinds"),
+                   "source_fault_runs_later_row": ex.get("source_fault_runs_later_row"), "source_fault_runs_in_txn": ex.get("source_fault_runs_in_txn"), "reply_kinds": ex.get("reply_kinds"),
                    "probes": ex.get("probes"), "probes_via_index": ex.get("probes_via_index"),
                    "events_validated_by_tlc": stats["events"], "validation_states": stats["states"],
                    "disagreements": stats["mismatches"], "confirmed_in_isolation": stats["confirmed"], "signatures": stats["signatures"],
